@@ -7,6 +7,8 @@ def explore(run, lean):
     hsm_corr.explore(run, "C23", n, hosts=("plain", "instr", "queued"))
     run.extra["rule"] = ("random charts (1-14 states, 40%% deep chains) on plain / instrumented / queued hosts, spied and un-spied; "
                          "non-trivial = the script contains an operation the property speaks about; distinct by canonical JSON")
+    ROUND6_RULE = '; queries between steps: the names are read after is_in / child_state as well'
+    run.extra["rule"] += ROUND6_RULE
 
 
 def replay(case):
